@@ -141,7 +141,8 @@ def cmpContact (c : OCtx) (what : String) (pred : Rat) (a b : Option (Contact3 R
     if c.scal x.dist pred then none else some s!"{what}-none-vs-some {c.tag} dist={x.dist.toF} prediction={pred.toF}"
   | some x, some y =>
     if !c.scal x.dist y.dist then
-      some s!"{what}-dist {c.tag}{if x.dist ≤ 0 && y.dist ≤ 0 then " penetrating" else ""} a={x.dist.toF} b={y.dist.toF}"
+      let t : Rat := (1 / 1000000) * (1 + c.sz)
+      some s!"{what}-dist {c.tag}{if x.dist ≤ t && y.dist ≤ t then " penetrating" else ""} a={x.dist.toF} b={y.dist.toF}"
     else if x.dist ≤ 0 || y.dist ≤ 0 then none   -- penetration: normal/witnesses may tie; the depth is the invariant
     else if !c.wit (x.point2.sub x.point1) (y.point2.sub y.point1) x.dist then some s!"{what}-separation-vector {c.tag}"
     else if c.ball && !(c.wit x.point1 y.point1 x.dist && c.wit x.point2 y.point2 x.dist) then some s!"{what}-witnesses {c.tag}"
@@ -233,6 +234,106 @@ def pBallCub : P (Float × Shape3 Float × Iso3 Float) := do
   match s.closed with
   | some c => pure (r, c, m)
   | none => failure
+
+/-! ### 2-D -/
+def fiso2 (m : Iso2 Float) : String := s!"{ff m.re} {ff m.im} {fv2 m.t}"
+def poiso2 : P (Iso2 Float) := do let a ← pfo; let b ← pfo; let t ← pov2; pure ⟨a, b, t⟩
+def finiteIso2 (m : Iso2 Float) : Bool := FloatIO.isFinite m.re && FloatIO.isFinite m.im && finite2 m.t
+def probes2 : List (V2 Rat) := [⟨0, 0⟩, ⟨1, 0⟩, ⟨0, 1⟩, ⟨3, -2⟩]
+def allClose2 (ps qs : List (V2 Rat)) (scale : Rat) : Bool := (ps.zip qs).all fun (a, b) => closeV2 a b scale
+def pDetails2 : P (Shape2 Float × Shape2 Float × Iso2 Float) := do
+  let a ← pshape2; let b ← pshape2; let m ← piso2
+  match a.closed, b.closed with
+  | some x, some y => pure (x, y, m)
+  | _, _ => failure
+def pWorld2 : P (Shape2 Float × Iso2 Float × Shape2 Float × Iso2 Float) := do
+  let a ← pshape2; let m1 ← piso2; let b ← pshape2; let m2 ← piso2
+  match a.closed, b.closed with
+  | some x, some y => pure (x, m1, y, m2)
+  | _, _ => failure
+def worldContact2 (s1 : Shape2 Float) (p1 : Iso2 Float) (s2 : Shape2 Float) (p2 : Iso2 Float) (pred : Float) : String :=
+  match detailsContact2 s1 s2 Iso2.identity pred with
+  | none => "noroute"
+  | some _ => fcontact2 (queryContact2 (fun m => (detailsContact2 s1 s2 m pred).getD none) p1 p2)
+
+def pOArgs2 (withPar : Bool) : P (WShape2 × Iso2 Float × WShape2 × Iso2 Float × Iso2 Float × Float) := do
+  let a ← pshape2; let m1 ← piso2; let b ← pshape2; let m2 ← piso2; let g ← piso2
+  let p ← if withPar then pf else pure 0.0
+  pure (a, m1, b, m2, g, p)
+def pcpOut2 : P (Option (ClosestPoints3 Rat)) := do
+  let t ← tok
+  match t with
+  | "intersecting" => pure (some .intersecting)
+  | "disjoint" => pure (some .disjoint)
+  | "within" => do
+      let a ← pov2; let b ← pov2
+      if finite2 a && finite2 b then pure (some (.withinMargin (embed (q2 a)) (embed (q2 b)))) else failure
+  | _ => failure
+def cpMapG2 (G : Iso2 Rat) (a : V2 Float) : V3 Rat := embed (G.act (q2 a))
+
+/-- oracle-only 2-D dispatcher runs; witnesses are embedded in the plane `z = 0` and compared by the 3-D code -/
+def oracleO2 (fn : String) (args out : List String) : String :=
+  let withPar := fn = "o2_contact" || fn = "o2_cp"
+  match run (pOArgs2 withPar) args with
+  | none => "skip bad-args"
+  | some (a, m1, b, m2, g, par) =>
+    match out with
+    | "panic" :: _ => "fail panic"
+    | _ =>
+    match splitSemi out with
+    | [A, B, C, aux] =>
+      let G := qiso2 g
+      let c : OCtx :=
+        { S := 2 * (vmag2 (q2 m1.t) + vmag2 (q2 m2.t)) + vmag2 G.t, sz := a.size + b.size, ball := a.isBall || b.isBall,
+          G := Iso3.identity, pair := s!"{a.kind}/{b.kind}",
+          concentric := (q m1.t.x == q m2.t.x) && (q m1.t.y == q m2.t.y) }
+      if !(unitC (qiso2 m1) && unitC (qiso2 m2) && unitC G) then "skip non-unit-rotation" else
+      if unsupported A && unsupported B && unsupported C then "skip unsupported-pair" else
+      if unsupported A || unsupported B || unsupported C then s!"fail support-differs-between-orders {c.tag}" else
+      match run (do let d ← pfo; let e ← pfo; pure (d, e)) aux with
+      | none => "fail unparsable-output"
+      | some (dist, depth) =>
+        let D := q dist
+        match fn with
+        | "o2_distance" =>
+          match run pfo A, run pfo B, run pfo C with
+          | some x, some y, some z =>
+            if !(FloatIO.isFinite x && FloatIO.isFinite y && FloatIO.isFinite z) then "fail nonfinite-output" else
+            firstSome [if c.scal (q x) (q y) then none else some s!"swap-distance {c.tag} a={x} b={y}",
+                       if c.scal (q x) (q z) then none else some s!"frame-distance {c.tag} a={x} c={z}"]
+          | _, _, _ => "fail unparsable-output"
+        | "o2_it" =>
+          match run pbool A, run pbool B, run pbool C with
+          | some x, some y, some z =>
+            if x == y && x == z then "pass"
+            else
+              let t : Rat := (1 / 1000000) * (1 + c.sz) + tol * c.S
+              let touching := FloatIO.isFinite dist && D ≤ t && !(FloatIO.isFinite depth && q depth < -t)
+              if touching then "pass" else s!"fail verdict-differs {c.tag} a={x} b={y} c={z} dist={dist}"
+          | _, _, _ => "fail unparsable-output"
+        | "o2_contact" =>
+          match run pcontactOut2 A, run pcontactOut2 B, run pcontactOut2 C with
+          | some x, some y, some z =>
+            if !(x.all finiteContact2 && y.all finiteContact2 && z.all finiteContact2) then "fail nonfinite-output" else
+            let X := x.map qcontact2; let Y := y.map qcontact2; let Z := z.map qcontact2
+            firstSome [cmpContact c "swap" (q par) (X.map embedC) (Y.map fun k => embedC k.flipped),
+                       cmpContact c "frame" (q par) (X.map fun k => embedC (k.transformBy G G)) (Z.map embedC)]
+          | _, _, _ => "fail unparsable-output"
+        | _ =>
+          -- closest points: A mapped by g needs the raw 2-D points
+          let mapG : List String → Option (ClosestPoints3 Rat) := fun toks =>
+            match toks with
+            | ["intersecting"] => some .intersecting
+            | ["disjoint"] => some .disjoint
+            | "within" :: rest => (run (do let a ← pov2; let b ← pov2; pure (a, b)) rest).map fun (a, b) =>
+                .withinMargin (cpMapG2 G a) (cpMapG2 G b)
+            | _ => none
+          match run pcpOut2 A, run pcpOut2 B, run pcpOut2 C, mapG A with
+          | some (some x), some (some y), some (some z), some xg =>
+            if !FloatIO.isFinite dist then "skip no-distance" else
+            firstSome [cmpCP c "swap" (q par) D x y.flipped, cmpCP c "frame" (q par) D xg z]
+          | _, _, _, _ => "fail unparsable-output-or-panic"
+    | _ => "fail unparsable-output"
 
 def handler (fn : String) : Option Handler :=
   match fn with
@@ -495,6 +596,75 @@ def handler (fn : String) : Option Handler :=
         | some (r, s, m) => withOut pbool o fun out => judgeIT (localPair (.ball r) s m) out
         | none => "skip bad-args" }
   | "o_contact" | "o_distance" | "o_it" | "o_cp" => some (oHandler fn)
+  /- ---------------- 2-D ---------------- -/
+  | "iso2_inverse" => some {
+      model := fun a => run (do let m ← piso2; pure (fiso2 m.inverse)) a
+      oracle := fun a o => match run piso2 a with
+        | some m => withOut poiso2 o fun r =>
+            if !finiteIso2 r then "fail nonfinite-output" else
+            let M := qiso2 m; let R := qiso2 r
+            if !unitC M then "skip non-unit-rotation" else
+            if allClose2 (probes2.map fun p => R.act (M.act p)) probes2 (vmag2 M.t + 10) &&
+               allClose2 (probes2.map fun p => M.act (R.act p)) probes2 (vmag2 M.t + 10)
+            then "pass" else "fail inverse-is-not-a-two-sided-inverse"
+        | none => "skip bad-args" }
+  | "iso2_mul" => some {
+      model := fun a => run (do let m ← piso2; let n ← piso2; pure (fiso2 (m.mul n))) a
+      oracle := fun a o => match run (do let m ← piso2; let n ← piso2; pure (m, n)) a with
+        | some (m, n) => withOut poiso2 o fun r =>
+            if !finiteIso2 r then "fail nonfinite-output" else
+            let M := qiso2 m; let N := qiso2 n; let R := qiso2 r
+            if !(unitC M && unitC N) then "skip non-unit-rotation" else
+            if allClose2 (probes2.map R.act) (probes2.map fun p => M.act (N.act p)) (vmag2 M.t + vmag2 N.t + 10)
+            then "pass" else "fail product-does-not-act-as-composition"
+        | none => "skip bad-args" }
+  | "iso2_inv_mul" => some {
+      model := fun a => run (do let m ← piso2; let n ← piso2; pure (fiso2 (m.invMul n))) a
+      oracle := fun a o => match run (do let m ← piso2; let n ← piso2; pure (m, n)) a with
+        | some (m, n) => withOut poiso2 o fun r =>
+            if !finiteIso2 r then "fail nonfinite-output" else
+            let M := qiso2 m; let N := qiso2 n; let R := qiso2 r
+            if !(unitC M && unitC N) then "skip non-unit-rotation" else
+            if allClose2 (probes2.map fun p => M.act (R.act p)) (probes2.map N.act) (vmag2 M.t + vmag2 N.t + 10)
+            then "pass" else "fail inv_mul-is-not-inverse-times"
+        | none => "skip bad-args" }
+  | "iso2_act" => some {
+      model := fun a => run (do let m ← piso2; let p ← pv2; pure (fv2 (m.act p))) a
+      oracle := fun a o => match run (do let m ← piso2; let p ← pv2; pure (m, p)) a with
+        | some (m, p) => withOut pov2 o fun r =>
+            if !finite2 r then "fail nonfinite-output" else
+            let M := qiso2 m
+            if !unitC M then "skip non-unit-rotation" else
+            if close ((q2 r).sub M.t).normSq (q2 p).normSq ((q2 p).normSq + vmag2 M.t) then "pass" else "fail action-not-isometric"
+        | none => "skip bad-args" }
+  | "iso2_inv_act" => some {
+      model := fun a => run (do let m ← piso2; let p ← pv2; pure (fv2 (m.invAct p))) a
+      oracle := fun a o => match run (do let m ← piso2; let p ← pv2; pure (m, p)) a with
+        | some (m, p) => withOut pov2 o fun r =>
+            if !finite2 r then "fail nonfinite-output" else
+            let M := qiso2 m
+            if !unitC M then "skip non-unit-rotation" else
+            if closeV2 (M.act (q2 r)) (q2 p) (vmag2 (q2 p) + vmag2 M.t) then "pass" else "fail inverse-action-not-inverse"
+        | none => "skip bad-args" }
+  | "d2_contact" => some {
+      model := fun a => run (do let (s1, s2, m) ← pDetails2; let p ← pf
+                                pure (routeStr (detailsContact2 s1 s2 m p) fcontact2)) a
+      oracle := fun a o => match run (do let x ← pDetails2; let p ← pf; pure (x, p)) a with
+        | some ((s1, s2, m), p) => withOut pcontactOut2 o fun r =>
+            if !(r.all finiteContact2) then "fail nonfinite-output" else
+            let M := qiso2 m
+            judgeContact2 ⟨qshape2 s1, Iso2.identity, qshape2 s2, M⟩ (q p)
+              (r.map fun c => let c := qcontact2 c; ⟨c.point1, M.act c.point2, c.normal1, M.rot c.normal2, c.dist⟩)
+        | none => "skip bad-args" }
+  | "q2_contact" => some {
+      model := fun a => run (do let (s1, p1, s2, p2) ← pWorld2; let p ← pf; pure (worldContact2 s1 p1 s2 p2 p)) a
+      oracle := fun a o => match run (do let x ← pWorld2; let p ← pf; pure (x, p)) a with
+        | some ((s1, p1, s2, p2), p) => withOut pcontactOut2 o fun r =>
+            if !(r.all finiteContact2) then "fail nonfinite-output" else
+            judgeContact2 ⟨qshape2 s1, qiso2 p1, qshape2 s2, qiso2 p2⟩ (q p) (r.map qcontact2)
+        | none => "skip bad-args" }
+  | "o2_contact" | "o2_distance" | "o2_it" | "o2_cp" =>
+      some { model := fun _ => some "oracle-only", oracle := fun a o => oracleO2 fn a o }
   | _ => none
 
 end C03
